@@ -1,18 +1,165 @@
 /-
-  Property C05 — PLACEHOLDER while the full theorem file is being written and proved.
+  Property C05 — interchain transfers conserve value and announce exactly what was taken.
+  Statements are FIXED: prove them exactly as stated (helper lemmas go above them or in Cgp/Proofs/C05.lean).
+  If you are convinced a statement is false as written, leave it `sorry`, give the concrete counterexample in your report
+  and propose the minimal corrected statement.
 -/
-import Cgp.Its
+import Cgp.ItsOps
+import Cgp.Proofs.C05
 namespace Cgp.Props.C05
 open Cgp Cgp.Xdr Cgp.Its
 
-/-- owner-only trusted-chain changes never touch balances, registry or approvals (frame clause shared by the ITS properties) -/
-theorem setTrusted_frame (st st' : State) (auths : List Addr) (c : Bytes) (evs : List Event)
-    (h : setTrustedChain st auths c = .ok (st', evs)) :
-    st.owner ∈ auths ∧ st'.tokens = st.tokens ∧ st'.registry = st.registry ∧ st'.gw = st.gw := by
-  unfold setTrustedChain at h
-  split at h <;> try simp at h
-  split at h <;> try simp at h
-  obtain ⟨rfl, _⟩ := h
-  simp_all
+variable (H : Bytes → Bytes) (S : Bytes → Bytes) (k : Consts)
+
+/-! ### the three token movements the service uses, exactly -/
+
+theorem tokTransfer_exact (st st' : State) (token src dst : Addr) (amount : Int) (au : Bool)
+    (h : tokTransfer st token src dst amount au = .ok st') :
+    au = true ∧ 0 ≤ amount ∧ amount ≤ balOf st token src ∧
+    (src ≠ dst → balOf st' token src = balOf st token src - amount ∧ balOf st' token dst = balOf st token dst + amount) ∧
+    (src = dst → balOf st' token src = balOf st token src) ∧
+    (∀ x, x ≠ src → x ≠ dst → balOf st' token x = balOf st token x) ∧
+    (∀ tk, tk ≠ token → st'.tokens tk = st.tokens tk) ∧
+    st'.registry = st.registry ∧ st'.gw = st.gw ∧ st'.trusted = st.trusted ∧ st'.self = st.self ∧
+    st'.gasService = st.gasService ∧ st'.owner = st.owner := by
+  exact Proofs.C05.tokTransfer_exact st st' token src dst amount au h
+
+theorem tokBurn_exact (st st' : State) (token src : Addr) (amount : Int) (au : Bool)
+    (h : tokBurn st token src amount au = .ok st') :
+    au = true ∧ 0 ≤ amount ∧ amount ≤ balOf st token src ∧
+    balOf st' token src = balOf st token src - amount ∧
+    (∀ x, x ≠ src → balOf st' token x = balOf st token x) ∧
+    (∀ tk, tk ≠ token → st'.tokens tk = st.tokens tk) ∧
+    st'.registry = st.registry ∧ st'.gw = st.gw ∧ st'.trusted = st.trusted ∧ st'.self = st.self := by
+  exact Proofs.C05.tokBurn_exact st st' token src amount au h
+
+theorem tokMint_exact (st st' : State) (token dst : Addr) (amount : Int)
+    (h : tokMintByService st token dst amount = .ok st') :
+    0 ≤ amount ∧ (∃ t, st.tokens token = some t ∧ t.kind = .interchain ∧ t.owner = st.self ∧ t.minter st.self = true) ∧
+    balOf st' token dst = balOf st token dst + amount ∧
+    (∀ x, x ≠ dst → balOf st' token x = balOf st token x) ∧
+    (∀ tk, tk ≠ token → st'.tokens tk = st.tokens tk) ∧
+    st'.registry = st.registry ∧ st'.gw = st.gw ∧ st'.trusted = st.trusted ∧ st'.self = st.self := by
+  exact Proofs.C05.tokMint_exact st st' token dst amount h
+
+/-! ### outbound -/
+
+/-- A successful outbound transfer: positive amount, the sender's authorisation, a trusted destination; the stated amount is
+    taken (burned for service-deployed tokens, moved into custody for canonical ones), exactly the stated gas is paid by the
+    sender to the gas service, and the hub is told exactly (token, amount, xdr(sender), destination, data) under
+    SendToHub(destination), with `gas_paid` over the very same payload. -/
+theorem outbound_exact (st st' : State) (auths : List Addr) (caller : Addr) (tid dest destAddr : Bytes) (amount : Int)
+    (data : Option Bytes) (gasToken : Addr) (gasAmount : Int) (evs : List Event)
+    (h : interchainTransfer H k st auths caller tid dest destAddr amount data gasToken gasAmount = .ok (st', evs)) :
+    0 < amount ∧ caller ∈ auths ∧ st.trusted dest = true ∧ 0 < gasAmount ∧
+    ∃ addr mgr st1 payload,
+      st.registry tid = some (addr, mgr) ∧
+      (match mgr with
+       | .native => tokBurn st addr caller amount true = .ok st1
+       | .lockUnlock => tokTransfer st addr caller st.self amount true = .ok st1) ∧
+      Abi.encodeHub (.sendToHub dest (.transfer ⟨tid, enc (.addr caller), destAddr, amount, data⟩)) = .ok payload ∧
+      tokTransfer st1 gasToken caller st1.gasService gasAmount true = .ok st' ∧
+      evs = [evTransferSent st tid caller dest destAddr amount data,
+             evGasPaid H k st1 payload caller gasToken gasAmount, evContractCalled H k st1 payload] := by
+  exact Proofs.C05.interchainTransfer_inv H k h
+
+/-- zero / negative amounts, untrusted destinations and unknown tokens are refused -/
+theorem outbound_refusals (st : State) (auths : List Addr) (caller : Addr) (tid dest destAddr : Bytes) (amount : Int)
+    (data : Option Bytes) (gasToken : Addr) (gasAmount : Int) :
+    (amount ≤ 0 → ∃ e, interchainTransfer H k st auths caller tid dest destAddr amount data gasToken gasAmount = .error e) ∧
+    (st.trusted dest = false → ∃ e, interchainTransfer H k st auths caller tid dest destAddr amount data gasToken gasAmount = .error e) ∧
+    (st.registry tid = none → ∃ e, interchainTransfer H k st auths caller tid dest destAddr amount data gasToken gasAmount = .error e) ∧
+    (caller ∉ auths → ∃ e, interchainTransfer H k st auths caller tid dest destAddr amount data gasToken gasAmount = .error e) ∧
+    (gasAmount ≤ 0 → ∃ e, interchainTransfer H k st auths caller tid dest destAddr amount data gasToken gasAmount = .error e) := by
+  refine ⟨?_, ?_, ?_, ?_, ?_⟩ <;> intro hh <;>
+    cases hr : interchainTransfer H k st auths caller tid dest destAddr amount data gasToken gasAmount with
+    | error e => exact ⟨e, rfl⟩
+    | ok r =>
+      obtain ⟨st', evs⟩ := r
+      obtain ⟨h1, h2, h3, h4, addr, mgr, st1, payload, hreg, -⟩ := Proofs.C05.interchainTransfer_inv H k hr
+      first
+        | omega
+        | (rw [hh] at h3; cases h3)
+        | (rw [hh] at hreg; cases hreg)
+        | exact absurd h2 hh
+
+/-! ### inbound -/
+
+/-- A successful inbound transfer credits exactly the announced amount to the decoded recipient: minted for service-deployed
+    tokens, released from the service's custody for canonical ones. -/
+theorem inbound_exact (st st' : State) (c i sa payload origin : Bytes) (t : Abi.Transfer) (evs : List Event)
+    (h : execute H S k st c i sa payload = .ok (st', evs))
+    (hd : Abi.decodeHub payload = .ok (.receiveFromHub origin (.transfer t))) :
+    ∃ addr mgr recipient st0,
+      st0 = { st with gw := st'.gw } ∧
+      st.registry t.tokenId = some (addr, mgr) ∧ addrFromXdr t.dest = some recipient ∧
+      (match mgr with
+       | .native => tokMintByService st0 addr recipient t.amount = .ok st'
+       | .lockUnlock => tokTransfer st0 addr st0.self recipient t.amount true = .ok st') ∧
+      (∃ gwEvs, evs = gwEvs ++ [evTransferReceived st origin t.tokenId t.source recipient t.amount t.data]) := by
+  exact Proofs.C05.inbound_exact H S k st st' c i sa payload origin t evs h hd
+
+/-! ### conservation over histories -/
+
+/-- no balance of any token is negative -/
+def TokNonNeg (st : State) : Prop := ∀ a t h', st.tokens a = some t → 0 ≤ t.bal h'
+
+theorem nonneg_step (st : State) (op : Op) (h : TokNonNeg st) : TokNonNeg (step H S k st op).1 := by
+  exact (Proofs.C05.step_FK H S k st op st.self).nn h
+
+/-- the service's custody (like every other balance) is never negative, in any history -/
+theorem nonneg_run (st : State) (ops : List Op) (h : TokNonNeg st) : TokNonNeg (run H S k st ops).1 := by
+  induction ops generalizing st with
+  | nil => exact h
+  | cons op ops ih =>
+    have e : (run H S k st (op :: ops)).1 = (run H S k (step H S k st op).1 ops).1 := rfl
+    rw [e]
+    exact ih _ (nonneg_step H S k st op h)
+
+/-- failed calls move nothing (and change nothing else) -/
+theorem failed_moves_nothing (st : State) (op : Op) (e : Err) (h : (step H S k st op).2 = .err e) :
+    (step H S k st op).1 = st := by
+  exact Props.C18.remote_deploy_rejected_unchanged H S k st op e h
+
+/-- operations in which the service itself is not the paying / receiving party (no donations to the service, the service
+    does not call its own entry points) -/
+def Clean (self : Addr) : Op → Prop
+  | .deploy _ caller _ _ _ _ _ _ => caller ≠ self
+  | .deployRemote _ caller _ _ _ _ => caller ≠ self
+  | .deployRemoteCanonical _ _ _ spender _ _ => spender ≠ self
+  | .transfer _ caller _ _ _ _ _ _ _ => caller ≠ self
+  | .minterMint _ _ dst _ _ => dst ≠ self
+  | _ => True
+
+/-- **custody = locked − released**: the service's balance of any token changes only by a successful outbound transfer of an
+    id registered for that token with the lock/unlock manager (+amount), or a successful inbound transfer for such an id
+    (−amount, when the recipient is somebody else) -/
+theorem custody_step (st : State) (op : Op) (a : Addr) (hgs : st.gasService ≠ st.self) (hclean : Clean st.self op) :
+    balOf (step H S k st op).1 a st.self = balOf st a st.self ∨
+    (∃ auths caller tid dest destAddr amount data gt ga,
+        op = .transfer auths caller tid dest destAddr amount data gt ga ∧ st.registry tid = some (a, .lockUnlock) ∧
+        0 < amount ∧ balOf (step H S k st op).1 a st.self = balOf st a st.self + amount) ∨
+    (∃ c i sa payload origin t,
+        op = .execute c i sa payload ∧ Abi.decodeHub payload = .ok (.receiveFromHub origin (.transfer t)) ∧
+        (∃ mgr, st.registry t.tokenId = some (a, mgr)) ∧
+        (balOf (step H S k st op).1 a st.self = balOf st a st.self - t.amount ∨
+         balOf (step H S k st op).1 a st.self = balOf st a st.self + t.amount)) := by
+  cases op
+  case transfer au ca ti de da am dt gt ga =>
+    rcases Proofs.C05.custody_transfer H S k st a au ca ti de da am dt gt ga hgs hclean with h1 | ⟨h1, h2, h3⟩
+    · exact Or.inl h1
+    · exact Or.inr (Or.inl ⟨au, ca, ti, de, da, am, dt, gt, ga, rfl, h1, h2, h3⟩)
+  case execute c i sa p =>
+    rcases Proofs.C05.custody_execute H S k st a c i sa p with h1 | ⟨origin, t, h1, h2, h3⟩
+    · exact Or.inl h1
+    · exact Or.inr (Or.inr ⟨c, i, sa, p, origin, t, rfl, h1, h2, h3⟩)
+  all_goals exact Or.inl ((Proofs.C05.step_FK H S k st _ a).keep ⟨hclean, hgs⟩)
+
+/-- the identity of the service, its gas service and the registry entries already made never change -/
+theorem frame_step (st : State) (op : Op) :
+    (step H S k st op).1.self = st.self ∧ (step H S k st op).1.gasService = st.gasService ∧
+    (step H S k st op).1.gatewayAddr = st.gatewayAddr := by
+  have f := Proofs.C05.step_FK H S k st op st.self
+  exact ⟨f.self, f.gs, f.ga⟩
 
 end Cgp.Props.C05
